@@ -13,8 +13,11 @@ ROOT = os.path.dirname(os.path.dirname(os.path.abspath(__file__)))
 
 def _run(module, args, timeout=3000):
     env = dict(os.environ, PYTHONPATH="%s:%s" % (loader.REPO, ROOT), VERIF_REPO=loader.REPO)
-    p = subprocess.run([sys.executable, "-m", module] + [str(a) for a in args], capture_output=True, text=True, env=env,
-                       cwd=ROOT, timeout=timeout)
+    try:
+        p = subprocess.run([sys.executable, "-m", module] + [str(a) for a in args], capture_output=True, text=True, env=env,
+                           cwd=ROOT, timeout=timeout)
+    except subprocess.TimeoutExpired:
+        return None, "harness %s exceeded %d s" % (module, timeout)
     for line in p.stdout.splitlines():
         if line.startswith("BOUNDED-RESULT "):
             return json.loads(line[len("BOUNDED-RESULT "):]), None
@@ -29,18 +32,30 @@ def state_handler(prop, tier, seed, timeout_ms, only=None, **_):
     u = UnitResult("bounded:state-handler-api", kind="bounded")
     u.props = [prop]
     u.model_name = "native"
-    res, err = _run("bounded.state_handler_api", [depth])
+    # quick: depth 4, exhaustive.  thorough: depth 4 exhaustive AND depth 5 in enumeration order under a wall-clock budget
+    # (23^5 sequences on the largest shape do not fit into a check): shapes whose depth-5 enumeration was cut are named
+    res, err = _run("bounded.state_handler_api", [4])
+    if res is not None and tier != "quick" and not res["violations"]:
+        res5, err5 = _run("bounded.state_handler_api", [5, 1200], timeout=2400)
+        if res5 is None:
+            res, err = None, err5
+        else:
+            res = {"evaluations": res["evaluations"] + res5["evaluations"], "sequences": res["sequences"] + res5["sequences"],
+                   "violations": res5["violations"], "samples": res["samples"], "shapes": res["shapes"],
+                   "truncated_shapes": res5.get("truncated_shapes", [])}
     u.seconds = time.time() - t0
     if res is None:
         u.status, u.detail = "crash", "bounded harness failed: %s" % err
         return [u]
     u.evaluations = res["evaluations"]
     u.distinct = res["sequences"]
-    u.rule = ("EXHAUSTIVE over the stated finite space: every sequence of <= %d operations (extract+mutate / insert / extract_active / "
-              "extract_global) on every tree shape in %s; distinct = sequences" % (depth, res["shapes"]))
+    u.rule = ("EXHAUSTIVE over the stated finite space: every sequence of 4 operations (extract+mutate / insert / extract_active / "
+              "extract_global) on every tree shape in %s%s; distinct = sequences" % (
+                  res["shapes"], "" if tier == "quick" else "; plus sequences of 5 operations in enumeration order within a "
+                  "20 min budget (cut short for the shapes %s)" % res.get("truncated_shapes", [])))
     u.samples = res["samples"]
-    u.detail = "BOUNDED (exhaustive within the bound): %d operation sequences of length %d over %d tree shapes" % (
-        res["sequences"], depth, len(res["shapes"]))
+    u.detail = "BOUNDED (exhaustive at length 4%s): %d operation sequences over %d tree shapes" % (
+        "" if tier == "quick" else ", length 5 within a time budget", res["sequences"], len(res["shapes"]))
     u.monitor_violations = [{"message": v["what"], "property": prop, "detail": v} for v in res["violations"]]
     u.status = "failed" if res["violations"] else "held"
     return [u]
